@@ -49,7 +49,10 @@ Inductive mexpr :=
 | XTrue
 | XNewLike                                (* self.__class__(max_size=self.max_size, on_miss=self.on_miss) *)
 | XFlattenTail                            (* self._get_flattened_ll()[1:] *)
-| XSelfCopy.                              (* self.copy() *)
+| XSelfCopy                               (* self.copy() *)
+| XMaxSizeNotPositive                     (* max_size <= 0   (constructor argument = c_max) *)
+| XOnMissNotCallable                      (* on_miss is not None and not callable(on_miss)  (PDefault holds MBool ok) *)
+| XTruthy (e : mexpr).                    (* truth value of an iterable argument: non-empty *)
 
 Inductive mtarget :=
 | TV (n : nat)
@@ -71,7 +74,11 @@ Inductive mstmt :=
 | MWith (body : list mstmt)               (* with self._lock: *)
 | MForKeys (x : nat) (e : mexpr) (body : list mstmt)      (* for x in e.keys()  /  for x in e (a dict) *)
 | MForPairs (x y : nat) (e : mexpr) (body : list mstmt)   (* for x, y in e *)
-| MReturn (e : mexpr) | MReturnNone | MRaise | MPass.
+| MReturn (e : mexpr) | MReturnNone | MRaise | MPass
+| MRaiseExn (e : exn)                     (* raise ValueError(...) / raise TypeError(...) *)
+| MZeroCounters                           (* self.hit_count = self.miss_count = self.soft_miss_count = 0 *)
+| MSetConfig.                             (* self.max_size = max_size / self._lock = RLock() / self.on_miss = on_miss:
+                                             the configuration is a parameter of the model, nothing to do *)
 
 Inductive er := EV (v : mv) | ERaise (e : exn) | EStuck.
 Inductive outcome := ONormalO | OReturnO (v : mv) | ORaiseO (e : exn) | OStuckO.
@@ -272,6 +279,19 @@ Fixpoint eval (c : cfg) (ps : param -> mv) (s : mstate) (e : mexpr) {struct e} :
       | (q, Ok _) => (s, EV (MObj q))
       | (_, Raise ex) => (s, ERaise ex)
       end
+  | XMaxSizeNotPositive => (s, EV (MBool (c_max c <=? 0)))
+  | XOnMissNotCallable =>
+      match ps PDefault with
+      | MBool ok => (s, EV (MBool (negb ok)))
+      | _ => (s, EStuck)
+      end
+  | XTruthy e1 =>
+      match eval c ps s e1 with
+      | (s1, EV (MSeq l)) | (s1, EV (MMap l)) => (s1, EV (MBool (match l with [] => false | _ => true end)))
+      | (s1, EV MNone) => (s1, EV (MBool false))
+      | (s1, EV _) => (s1, EStuck)
+      | other => other
+      end
   end.
 
 (* one assignment target *)
@@ -463,6 +483,10 @@ Fixpoint exec (c : cfg) (ps : param -> mv) (st : mstmt) (s : mstate) {struct st}
   | MReturnNone => (s, OReturnO MNone)
   | MRaise => (s, ORaiseO KeyError)          (* bare raise inside `except KeyError` *)
   | MPass => (s, ONormalO)
+  | MRaiseExn ex => (s, ORaiseO ex)
+  | MZeroCounters =>
+      let p := ms_cache s in (with_cache s (mkPC (ps_store p) (ps_ring p) 0%N 0%N 0%N (ps_calls p)), ONormalO)
+  | MSetConfig => (s, ONormalO)
   end.
 
 Definition run_body (c : cfg) (ps : param -> mv) : list mstmt -> mstate -> mstate * outcome :=
@@ -476,3 +500,6 @@ Definition call_method (c : cfg) (prog : list mstmt) (ps : param -> mv) (p : pca
   | (s, ORaiseO ex) => (ms_cache s, ERaise ex)
   | (s, OStuckO) => (ms_cache s, EStuck)
   end.
+
+(* the object __init__ receives: an empty dict, nothing else set yet *)
+Definition raw_object : pcache := mkPC [] (mkPR blank_heap 0 [] 0) 0%N 0%N 0%N [].
